@@ -39,7 +39,7 @@ VARIABLES
   fds,      \* function: descriptor -> file object, descriptors opened by the component and still open
   files,    \* set of [kind, name] created in /dev/shm or the tmp directory and not yet unlinked
   objsz,    \* function: file object -> size set by ftruncate (-1: a file that was only opened for reading)
-  handles,  \* set of live API handles [k, rx, rw, n, owner, ok]  (k = "single": rx = rw)
+  handles,  \* set of live API handles [k, rx, rw, n, owner, ok, pristine]  (k = "single": rx = rw)
   spans,    \* JitRuntime: set of live code spans [p, n]
   rt,       \* JitRuntime: [alive, dual, multi, fill, imm, nopad, gran, pools]
   vm,       \* VirtMem call in progress: [api, arg, m0]   (api = "none": no call)
@@ -221,7 +221,7 @@ AllocWhy(ev) ==
   \cup Chk("alloc: failed although the arguments are valid and no OS request failed", a.n = 0 \/ a.huge \/ facts.hard > vm.f0)
 AllocHandles(ev) ==
   IF ev.r = "Ok" /\ ev.p # 0
-    THEN handles \cup {[k |-> "single", rx |-> ev.p, rw |-> ev.p, n |-> IF vm.arg.n > 0 THEN vm.arg.n ELSE page, owner |-> Owner, ok |-> TRUE]}
+    THEN handles \cup {[k |-> "single", rx |-> ev.p, rw |-> ev.p, n |-> IF vm.arg.n > 0 THEN vm.arg.n ELSE page, owner |-> Owner, ok |-> TRUE, pristine |-> TRUE]}
     ELSE handles
 
 (* release(p, size): "Releases virtual memory previously allocated by VirtMem::alloc()".                   *)
@@ -274,7 +274,7 @@ DualWhy(ev) ==
   \cup Chk("dual: failed although the arguments are valid and no OS request failed", a.n = 0 \/ facts.hard > vm.f0)
 DualHandles(ev) ==
   IF ev.r = "Ok" /\ ev.rx # 0 /\ ev.rw # 0
-    THEN handles \cup {[k |-> "dual", rx |-> ev.rx, rw |-> ev.rw, n |-> IF vm.arg.n > 0 THEN vm.arg.n ELSE page, owner |-> Owner, ok |-> TRUE]}
+    THEN handles \cup {[k |-> "dual", rx |-> ev.rx, rw |-> ev.rw, n |-> IF vm.arg.n > 0 THEN vm.arg.n ELSE page, owner |-> Owner, ok |-> TRUE, pristine |-> TRUE]}
     ELSE handles
 
 (* release_dual_mapping(dm, size): "Releases virtual memory mapping previously allocated by                 *)
@@ -315,8 +315,12 @@ HriWhy(ev) ==
   \cup Chk("hardened_runtime_info: differs from an earlier answer", facts.hri = "unknown" \/ (facts.hri = "enabled") = ev.en)
   \cup Chk("hardened_runtime_info: changed the mappings", maps = vm.m0)
 
+(* a successful protect() by the owner changes what the views of a handle may do: no longer "as allocated" *)
+ProtectHandles(ev) ==
+  IF ev.r = "Ok" THEN {IF \E r \in HRanges(h) : r[1] < vm.arg.p + PageUp(vm.arg.n) /\ vm.arg.p < r[1] + r[2] THEN [h EXCEPT !.pristine = FALSE] ELSE h : h \in handles}
+  ELSE handles
 VmRetHandles(ev) ==
-  IF ev.api = "alloc" THEN AllocHandles(ev) ELSE IF ev.api = "release" THEN ReleaseHandles(ev)
+  IF ev.api = "alloc" THEN AllocHandles(ev) ELSE IF ev.api = "release" THEN ReleaseHandles(ev) ELSE IF ev.api = "protect" THEN ProtectHandles(ev)
   ELSE IF ev.api = "dual" THEN DualHandles(ev) ELSE IF ev.api = "reldual" THEN RelDualHandles(ev) ELSE handles
 
 VmRetWhy(ev) ==
@@ -492,12 +496,13 @@ Effect(ev) ==
 (* The property as state invariants (redundant with the Why sets at the returns; checked in every state)   *)
 (* ------------------------------------------------------------------------------------------------------ *)
 NoLeakWhenIdle == Quiescent => (Owned(maps, handles) /\ NoDescriptor /\ files = {})
-HandlesDisjoint == \A g, h \in handles : g # h =>
+(* (a handle whose release failed half-way - ok = FALSE - may name a range the OS has handed out again) *)
+HandlesDisjoint == \A g, h \in handles : (g # h /\ g.ok /\ h.ok) =>
                      \A r \in HRanges(g) : \A q \in HRanges(h) : r[1] + r[2] <= q[1] \/ q[1] + q[2] <= r[1]
 HandleBacked == vm.api = "none" =>
                   \A h \in handles : h.ok => \A r \in HRanges(h) : Mapped(maps, r[1], r[2])
 DualIsWX == vm.api = "none" =>
-              \A h \in handles : (h.ok /\ h.k = "dual") =>
+              \A h \in handles : (h.ok /\ h.pristine /\ h.k = "dual") =>
                  /\ CoveredBy(maps, h.rx, h.n, LAMBDA m : ~Wb(m.prot))
                  /\ CoveredBy(maps, h.rw, h.n, LAMBDA m : ~Xb(m.prot))
 SpansOK == /\ \A s, t \in spans : s # t => (s.p + s.n <= t.p \/ t.p + t.n <= s.p)
